@@ -80,6 +80,9 @@ pub enum Req {
     /// TXT query with further records in the additional section: `extra_a` an ordinary A record before
     /// the OPT (fine), `opts` OPT records (RFC 6891 §6.1.1: more than one MUST be answered FORMERR)
     QueryExtra { id: u16, name: String, extra_a: bool, opts: u8 },
+    /// an otherwise ordinary EDNS TXT query (or UPDATE, `update`) whose OPT record is counted in the
+    /// answer (0) or authority (1) section instead of the additional section
+    MisplacedOpt { id: u16, name: String, section: u8, update: bool },
     /// STATUS / NOTIFY / IQUERY / DSO / unassigned opcodes with an ordinary question
     OtherOp {
         id: u16,
@@ -216,6 +219,7 @@ fn req() -> impl Strategy<Value = Req> {
         2 => valid_req().prop_map(|r| Req::AsResponse(Box::new(r))),
         1 => vec(any::<u8>(), 0..12).prop_map(Req::Short),
         2 => (any::<u16>(), prop_oneof![Just(0u8), Just(2u8)], prop::sample::select(qname_pool())).prop_map(|(id, n, name)| Req::QdCount { id, n, name }),
+        1 => (any::<u16>(), prop::sample::select(qname_pool()), 0u8..2, prop::bool::weighted(0.2)).prop_map(|(id, name, section, update)| Req::MisplacedOpt { id, name, section, update }),
         3 => (
             any::<u16>(),
             prop_oneof![4 => Just(0u8), 1 => Just(5u8), 1 => 0u8..16],
@@ -324,6 +328,14 @@ fn render(r: &Req) -> (Vec<u8>, bool) {
             // with two OPTs the oracle finds the framing-level defect itself; the rest is valid
             (v, true)
         }
+        Req::MisplacedOpt { id, name, section, update } => {
+            let counts = if *section % 2 == 0 { [1, 1, 0, 0] } else { [1, 0, 1, 0] };
+            let mut v = wl::header_bytes(*id, false, if *update { 5 } else { 0 }, 0, 0, counts);
+            wl::put_question(&mut v, &wl::parse_name_str(name), if *update { wl::T_SOA } else { wl::T_TXT }, 1);
+            wl::put_rr(&mut v, &wl::OutRr::opt(1232, 0, 0, false, vec![]));
+            // the oracle finds the defect itself (an OPT outside the additional section)
+            (v, true)
+        }
         Req::OtherOp { id, opcode, name, qtype, edns } => {
             let mut v = wl::header_bytes(*id, false, *opcode, 0, 0, [1, 0, 0, edns.is_some() as u16]);
             wl::put_question(&mut v, &wl::parse_name_str(name), *qtype, 1);
@@ -418,6 +430,7 @@ fn kind_label(r: &Req) -> &'static str {
         Req::Query { .. } => "req/query",
         Req::QueryExtra { opts: 2, .. } => "req/query-two-opt",
         Req::QueryExtra { .. } => "req/query-extra-additional",
+        Req::MisplacedOpt { .. } => "req/opt-outside-additional-section",
         Req::OtherOp { edns: Some(e), .. } if e.version > 0 => "req/other-opcode-edns-version>0",
         Req::OtherOp { opcode: 2, .. } => "req/status",
         Req::OtherOp { opcode: 4, .. } => "req/notify",
@@ -806,9 +819,9 @@ pub fn check() -> Option<Check> {
     Some(Check {
         id: "C11",
         level: "exploration",
-        rule: "catalog = 1–5 of the origins {., test., a.test., b.test., x.a.test., y.x.a.test., other., atest.} (each zone: SOA, NS, apex/www/wildcard TXT 'zone=<origin>'; 25 % served by a chained [SkipHandler, InMemory] pair) × deny/allow sets drawn from nested v4/v6 prefixes × 1–6 requests per front door from 13 v4 / v6 / v4-mapped sources over UDP or TCP: valid QUERY (TXT/A/SOA/NS/ANY/AXFR, EDNS absent / v0 / v1,2,255), STATUS/NOTIFY/IQUERY/DSO/unassigned opcodes, UPDATE, QR=1, < 12 octets, QDCOUNT 0/2, header+garbage, 1–3 octet-level mutations of a valid request, random octets; a fixed probe query follows every hostile request. A case is non-trivial iff at least one of its requests exercises a gate (short, QR, opcode, malformed / possibly malformed body, denied source, EDNS version, no enclosing zone) or has ≥ 2 enclosing zones; counters.nontrivial-requests counts them; distinct = hash of (catalog, ACL, requests).",
+        rule: "catalog = 1–5 of the origins {., test., a.test., b.test., x.a.test., y.x.a.test., other., atest.} (each zone: SOA, NS, apex/www/wildcard TXT 'zone=<origin>'; 25 % served by a chained [SkipHandler, InMemory] pair) × deny/allow sets drawn from nested v4/v6 prefixes × 1–6 requests per front door from 13 v4 / v6 / v4-mapped sources over UDP or TCP: valid QUERY (TXT/A/SOA/NS/ANY/AXFR, EDNS absent / v0 / v1,2,255), STATUS/NOTIFY/IQUERY/DSO/unassigned opcodes, UPDATE, QR=1, < 12 octets, QDCOUNT 0/2, an OPT record counted in the answer or authority section, header+garbage, 1–3 octet-level mutations of a valid request, random octets; a fixed probe query follows every hostile request. A case is non-trivial iff at least one of its requests exercises a gate (short, QR, opcode, malformed / possibly malformed body, denied source, EDNS version, no enclosing zone) or has ≥ 2 enclosing zones; counters.nontrivial-requests counts them; distinct = hash of (catalog, ACL, requests).",
         assumptions: vec![
-            "requests and responses are read with the harness's own RFC 1035 reader; 'does not parse' is decided at framing level (truncation, counts, label types, pointers, name length, QDCOUNT ≠ 1, > 1 OPT); for mutated/garbage bodies whose framing is fine FORMERR and the normal outcome are both accepted",
+            "requests and responses are read with the harness's own RFC 1035 reader; 'does not parse' is decided at framing level (truncation, counts, label types, pointers, name length, QDCOUNT ≠ 1, > 1 OPT, OPT/TSIG outside the additional section); for mutated/garbage bodies whose framing is fine FORMERR and the normal outcome are both accepted",
             "RCODE is a member of the set of codes whose condition holds (the statement fixes no precedence); the zone's own answer is pinned only for TXT/IN marker queries (apex, www, names whose closest encloser is the apex); other QUERY/UPDATE answers are C10/C12's subject and only counted, ID, QR and question are checked",
             "question echo is required for QUERY and UPDATE whose question section parses; for other opcodes only ID/QR/RCODE",
             "sources have a non-zero port and are neither unspecified nor broadcast (the socket loops drop those before the front door)",
